@@ -125,9 +125,10 @@ fn to_units(m: &esref::MatchResult, d: &Dec) -> EMatch {
 fn case_iter(p: &Prepared, text: &[u16], start: usize, ucs2: bool, rep: &mut Report) -> V {
     let name = if ucs2 { "find_from_ucs2" } else { "find_from_utf16" };
     let d = decode(text, !ucs2);
-    if start <= text.len() && !d.off.contains(&start) {
-        return V::Inconclusive("start_splits_a_pair");
-    }
+    // A start between the halves of a pair: which characters the text then consists of is not
+    // fixed by any property, but the history invariants and the unfolding (whose cursor rule only
+    // looks at the units at the cursor) are; cursor consistency and the reference are skipped.
+    let split = start <= text.len() && !d.off.contains(&start);
     let (seq, absorbing) = match history16(&p.re, text, start, ucs2) {
         Guarded::Ok(x) => x,
         Guarded::Fuel => return V::Inconclusive("fuel"),
@@ -137,7 +138,7 @@ fn case_iter(p: &Prepared, text: &[u16], start: usize, ucs2: bool, rep: &mut Rep
     if !absorbing {
         return viol(format!("{}: next() returned Some after None", name), "Some after None".into(), "None forever".into());
     }
-    if seq.len() > d.cps.len() + 1 {
+    if seq.len() > d.cps.len() + 1 + split as usize {
         return viol(format!("{}: more matches than character positions plus one", name), engine::show_matches(&seq), format!("at most {}", d.cps.len() + 1));
     }
     if start > text.len() && !seq.is_empty() {
@@ -195,6 +196,10 @@ fn case_iter(p: &Prepared, text: &[u16], start: usize, ucs2: bool, rep: &mut Rep
     // cursor, so first(c) = the match at min{p >= c : a match starts at p}. Hence for boundaries
     // c < c2: if first(c2) exists so does first(c), and it starts no later; and if first(c)
     // starts at or after c2 then first(c2) is the very same match.
+    if split {
+        rep.inc("histories_from_a_start_inside_a_pair");
+        return V::Held(!seq.is_empty());
+    }
     if start <= text.len() {
         let bounds: Vec<usize> = d.off.iter().copied().filter(|&o| o >= start).collect();
         let mut firsts: Vec<Option<EMatch>> = Vec::new();
@@ -373,7 +378,7 @@ fn case_robust(p: &Prepared, text: &[u16], start: usize, ucs2: bool, rep: &mut R
 
 fn tweak(g: &mut GenCfg, rng: &mut Rng) {
     let mut a: Vec<u32> = "ab1\n".chars().map(|c| c as u32).collect();
-    let extra = [0x10000u32, 0x10400, 0x10428, 0x1F600, 0x10FFFF, 0xE9, 0xFFFF, 0x212A, 0x17F, 0x20E3];
+    let extra = [0x10000u32, 0x10400, 0x10428, 0x1F600, 0x10FFFF, 0xE9, 0xFFFF, 0x212A, 0x17F, 0x20E3, 0x10061, 0x10031, 0x1000A];
     for _ in 0..rng.range(1, 3) {
         a.push(*rng.pick(&extra));
     }
